@@ -5,7 +5,7 @@ import YaegiVerif.Generated.C15
 /- Line-protocol front end for C15 (glue, not a proof obligation).
    pkg FILES MAIN AFTER
      FILES = ((DECL …) …)            the files of the package in the order they are read, declarations in source order
-     DECL  = (var NAMES LATE INIT…)  NAMES = (a b …)  LATE = 1|0 (callee declared later)  INIT = (label IDS)
+     DECL  = (var NAMES LATE OPLATE INIT…)  NAMES = (a b …)  LATE = 1|0 (callee declared later)  OPLATE = 1|0 (comma-ok: map / channel operand declared later)  INIT = (label IDS)
            | (func NAME RECV RTYPE TPARAMS PARAMS RESULTS LABEL IDS LOCALS)   RECV = n | v | p (none, value, pointer)
            | (type NAME (field …))
      IDS   = ((name 1|0) …)          1 = denotes the package-level object, 0 = a local / field key of that name
@@ -41,11 +41,12 @@ def parseInit (s : Sexp) : Option Init :=
 
 def parseVar (s : Sexp) : Option VarSpec :=
   match s with
-  | .list (names :: late :: inits) => do
+  | .list (names :: late :: oplate :: inits) => do
     let ns ← names.atoms?
     let lt ← late.bool?
+    let ol ← oplate.bool?
     let is ← inits.mapM parseInit
-    some ⟨ns, is, lt⟩
+    some ⟨ns, is, lt, ol⟩
   | _ => none
 
 def parseRecv (s : Sexp) : Option Recv :=
@@ -104,6 +105,10 @@ def showTrace (t : Trace) : String :=
   let l := t.events ++ (if t.err then ["!error"] else [])
   if l.isEmpty then "-" else ",".intercalate l
 
+/-- the same when the rejection is the Go panic of `gta` on a comma-ok declaration (F15-9) -/
+def showTraceC (crash : Bool) (t : Trace) : String :=
+  if crash && t.err then ",".intercalate (t.events ++ ["!crash"]) else showTrace t
+
 /-- SUB = (path (imports…) FILES) -/
 def parseSub (s : Sexp) : Option (String × List String × SrcPkg) :=
   match s with
@@ -130,8 +135,13 @@ def handle (args : List Sexp) : String :=
        let p := s.toPkg i
        let gy := collectDepsY d p
        let gg := goDeps (toPkgGo s)
-       let tail := s!"ylog={showTrace (runSrcY f i d s)} ilog={showTrace (runSrcImportY f i d s)} regs={showRegs f i s} syms={showSeq (sortPaths (declaredFuncs i s.decls).eraseDups)} gdeps={showDeps gg} gorder={showRes (orderGo gg)} glog={showTrace (runSrcGo s)} slog={showTrace (runSrcGoS s)}"
-       if gtaRejects d p then
+       let c := operandLate p
+       let regs := if c then "crash" else showRegs f i s
+       let syms := if c then "crash" else showSeq (sortPaths (declaredFuncs i s.decls).eraseDups)
+       let tail := s!"ylog={showTraceC c (runSrcY f i d s)} ilog={showTraceC c (runSrcImportY f i d s)} regs={regs} syms={syms} gdeps={showDeps gg} gorder={showRes (orderGo gg)} glog={showTrace (runSrcGo s)} slog={showTrace (runSrcGoS s)}"
+       if c then
+         s!"class={classifySrc s} deps=crash yorder=crash {tail}"
+       else if gtaRejects d p then
          s!"class={classifySrc s} deps=err yorder=err {tail}"
        else
          s!"class={classifySrc s} deps={showDeps gy} yorder={showRes (orderY gy)} {tail}"
